@@ -222,6 +222,7 @@ theorem optBool_bool (o : Option Bool) : optBool (o.map J.bool) = .ok o := by
 /-- an atom of an enum as the decoder leaves it: a JSON number, string or boolean -/
 def IsAtomJ : J → Prop
   | .num _ | .str _ | .bool _ => True
+  | .arr l => isUUIDAtomJ l = true      -- ["uuid", x]
   | _ => False
 
 /-- a base type as a decoder can produce it from well-formed JSON -/
@@ -239,7 +240,9 @@ theorem decodeEnum_encodeEnum (l : List J) (h : ∀ a ∈ l, IsAtomJ a) : decode
     have := h a (by simp)
     cases a <;> simp_all [encodeEnum, decodeEnum, IsAtomJ]
   | a :: b :: t =>
-    simp [encodeEnum, decodeEnum, headIs, strEq, idx, isArr, assertArr, bind, Outcome.bind, pure]
+    have hne : isUUIDAtomJ [J.str "set", J.arr (a :: b :: t)] = false := by
+      simp [isUUIDAtomJ]
+    simp [encodeEnum, decodeEnum, hne, headIs, strEq, idx, isArr, assertArr, bind, Outcome.bind, pure]
 
 theorem notNull_encodeEnum (l : List J) (h : ∀ a ∈ l, IsAtomJ a) : NotNull (encodeEnum l) := by
   match l with
